@@ -169,29 +169,31 @@ def check_cell(cell):
 
 # ---- decoder side: surplus octets, trailing bytes, shortened sections -----------------------------
 class FrameCase(object):
-    def __init__(self, case, surplus, tail, shorten):
-        self.case, self.surplus, self.tail, self.shorten = case, surplus, tail, shorten
+    def __init__(self, case, surplus, tail, shorten, lead=b''):
+        self.case, self.surplus, self.tail, self.shorten, self.lead = case, surplus, tail, shorten, lead
         self.bytes, self.info = frame.build(case.meta, case.ids, case.data_bits, surplus=surplus)
 
     def key(self):
-        return hashlib.sha1(self.bytes + self.tail + repr(self.shorten).encode()).hexdigest()[:20]
+        return hashlib.sha1(self.lead + self.bytes + self.tail + repr(self.shorten).encode()).hexdigest()[:20]
 
     def summary(self):
         return {'edition': self.case.meta['edition'], 'section2': self.case.meta.get('section2') is not None,
-                'surplus_octets': self.surplus, 'trailing': self.tail[:12].hex(), 'shortened': self.shorten,
+                'surplus_octets': self.surplus, 'leading': self.lead.hex(), 'trailing': self.tail[:12].hex(), 'shortened': self.shorten,
                 'descriptors': ['%06d' % i for i in self.case.ids], 'n_bytes': len(self.bytes)}
 
     def to_json(self):
         return {'case': self.case.to_json(), 'surplus': {str(k): v for k, v in self.surplus.items()}, 'tail': self.tail.hex(),
-                'shorten': self.shorten}
+                'shorten': self.shorten, 'lead': self.lead.hex()}
 
     @staticmethod
     def from_json(d):
         return FrameCase(gmsg.Case.from_json(d['case']), {int(k): v for k, v in d['surplus'].items()}, bytes.fromhex(d['tail']),
-                         d.get('shorten'))
+                         d.get('shorten'), bytes.fromhex(d.get('lead', '')))
 
 
 TAILS = [b'', b'\x00\x00', b'7777', b'BUFR', b'BUF', b'\xff\xfe\xfd', b'7777BUFR\x00\x00\x20\x04']
+# bytes in front of the start signature (the decoder looks for it): "the span from BUFR to 7777" whatever surrounds it
+LEADS = [b'\r\r\n', b'\x01\r\r\n001\r\r\nISMD01 OKPR 120000\r\r\n', b'BUF', b'7777', b'\x00', b'BU\x00FR' * 5]
 
 
 def gen_frame(ch, opts):
@@ -212,7 +214,8 @@ def gen_frame(ch, opts):
     if ch.bool(1, 3):
         secs = [k for k in (1, 2, 3, 4) if k != 2 or case.meta.get('section2') is not None]
         shorten = [ch.choice(secs), ch.int(1, 3)]
-    return FrameCase(case, surplus, tail, shorten)
+    lead = ch.choice(LEADS) if ch.bool(1, 3) else b''
+    return FrameCase(case, surplus, tail, shorten, lead)
 
 
 def content_octets(fc, k):
@@ -231,19 +234,21 @@ def content_octets(fc, k):
 def check_frame(fc):
     out = Outcome()
     case = fc.case
-    out.nontrivial = bool(fc.surplus) or bool(fc.tail) or fc.shorten is not None
+    out.nontrivial = bool(fc.surplus) or bool(fc.tail) or bool(fc.lead) or fc.shorten is not None
     out.classes = ['decoder_frame', 'edition%d' % case.meta['edition']] + ['surplus_in_section_%d' % k for k in fc.surplus]
     if fc.tail:
         out.classes.append('trailing_bytes')
+    if fc.lead:
+        out.classes.append('leading_bytes')
     b = fc.bytes
-    o = sut.call(decoder().process, b + fc.tail)
+    o = sut.call(decoder().process, fc.lead + b + fc.tail)
     if not o.ok:
         return out.fail('decode of a message with surplus octets / trailing bytes raised %s@%s' % (o.exc_type, o.frame),
                         error=o.msg, surplus=fc.surplus)
     m = o.value
     if m.serialized_bytes != b:
         out.fail('serialized_bytes is not exactly the span from BUFR to 7777', n_got=len(m.serialized_bytes), n=len(b),
-                 surplus=fc.surplus, tail=fc.tail[:8])
+                 surplus=fc.surplus, tail=fc.tail[:8], lead=fc.lead[:8])
     if m.length.value != len(b):
         out.fail('length.value differs from the declared total', got=m.length.value)
     for s in m.sections:
